@@ -43,6 +43,7 @@ def r1(ctx, R):
             n += 1
             q = f'{(ci.name + ".") if ci else ""}{name}'
             w = f'{FIO}:{q}'
+            R.fn(w)
             R.check(mode in ('rb', 'ab', 'w+b'), f'{q} :: open(.., {mode!r})', w, "mode in {'rb', 'ab', 'w+b'} (no r+b / in-place rewriting)", mode)
             if 'w' in mode or '+' in mode:
                 trunc.append(q)
@@ -119,7 +120,8 @@ def r3(ctx, R):
         hi = repo.func(FIO, f'{cn}.hInfos')
         rh = repo.func(FIO, f'{cn}.readHeader')
         w = f'{FIO}:{cn}.hInfos/readHeader'
-        R.fn(w)
+        R.fn(f'{FIO}:{cn}.hInfos')
+        R.fn(f'{FIO}:{cn}.readHeader')
         wseq = [ast.unparse(k.value) for c in ast.walk(hi) if isinstance(c, ast.Call) and ast.unparse(c.func) == 'np.array' for k in c.keywords if k.arg == 'dtype']
         rseq = [ast.unparse(k.value) for c in sorted((c for c in ast.walk(rh) if isinstance(c, ast.Call) and ast.unparse(c.func) == 'np.fromfile'), key=lambda c: (c.lineno, c.col_offset)) for k in c.keywords if k.arg == 'dtype']
         R.check(_dtype_runs(wseq) == _dtype_runs(rseq) and bool(wseq), f'{cn} :: header dtypes written == header dtypes read (in order)', w, _dtype_runs(wseq), _dtype_runs(rseq))
@@ -130,6 +132,8 @@ def r3(ctx, R):
     okw = len(first) == 1 and ast.unparse(first[0].args[0]) == '[self.nVar, self.dim, *self.gridSizes]'
     counts = [ast.unparse(k.value) for c in sorted((c for c in ast.walk(rh) if isinstance(c, ast.Call) and ast.unparse(c.func) == 'np.fromfile'), key=lambda c: (c.lineno, c.col_offset)) for k in c.keywords if k.arg == 'count']
     R.check(okw and counts == ['2', 'dim', 'n'], 'Rectilinear :: integer block (nVar, dim, gridSizes) and one float64 block per axis are read back with the written counts', f'{FIO}:Rectilinear.readHeader', ['2', 'dim', 'n (for n in gridSizes)'], counts)
+    for q_ in ('FieldsIO.hBase', 'FieldsIO.fromFile', 'FieldsIO.initialize', 'FieldsIO.readField', 'FieldsIO.times', 'FieldsIO.time', 'FieldsIO.register'):
+        R.fn(f'{FIO}:{q_}')
     # base header
     hb = repo.func(FIO, 'FieldsIO.hBase')
     ff = repo.func(FIO, 'FieldsIO.fromFile')
@@ -157,6 +161,8 @@ def r3(ctx, R):
 @rule('C16', 'C16.R4', 'only complete records are reported: nFields is the floor of (fileSize - hSize) / record size and every record read is bounded by it', floor=9)
 def r4(ctx, R):
     repo = ctx.repo
+    for q_ in ('FieldsIO.nFields', 'FieldsIO.fSize', 'FieldsIO.hSize', 'FieldsIO.formatIndex', 'Rectilinear.toVTR'):
+        R.fn(f'{FIO}:{q_}')
     fn = repo.func(FIO, 'FieldsIO.nFields')
     ret = [ast.unparse(s.value) for s in walk_no_nested(fn) if isinstance(s, ast.Return)]
     R.check(ret == ['int((self.fileSize - self.hSize) // (self.tSize + self.fSize))'], 'FieldsIO.nFields :: floor division by the full record size', f'{FIO}:FieldsIO.nFields', 'int((fileSize - hSize) // (tSize + fSize))', ret)
